@@ -8,7 +8,8 @@ function removes only the grants no remaining link gives) and F23 (`DomainManage
 matching function drops the affected cached managers).
 
 * `RM`  — `RoleManager` and `ConditionalRoleManager` (same state; the conditional class only adds `condHasLink`
-  and the link-condition maps, which live on the `Role` objects and therefore die with them on `clear`/`_rebuild`).
+  and the link-condition maps, which live on the `Role` objects; `_rebuild` drops them, `clear` of the conditional
+  class keeps the functions (`RM.condClear`)).
   The role graph is one edge set: `Role.roles` and `Role.users` are always updated together
   (`add_role`/`remove_role`), so `users` is the inverse of `roles`.
   `nodes` = keys of `all_roles` in insertion order.  Sets are duplicate-free lists whose order is never observed.
@@ -152,6 +153,13 @@ def RM.getUsers (s : RM) (n : Name) : RM × List Name :=
 /-- `clear`: the link-condition maps live on the Role objects and go with them -/
 def RM.clear (s : RM) : RM :=
   { s with allLinks := [], nodes := [], edges := [], condFns := [], condParams := [] }
+
+/-- `ConditionalRoleManager.clear` (after the repair of the reload fail-open): links, graph and stored parameters
+    go; the link-condition FUNCTIONS are registered per (user, role, domain) and stay - the Role objects holding one
+    are re-created (empty), in their old order. `_rebuild` (add_matching_func) still resets everything: `RM.clear`. -/
+def RM.condClear (s : RM) : RM :=
+  { s with allLinks := [], nodes := s.nodes.filter (fun n => s.condFns.any fun e => e.1.1 == n), edges := [],
+           condParams := [] }
 
 /-- `_rebuild` -/
 def RM.rebuild (s : RM) : RM :=
@@ -342,7 +350,8 @@ def CDM.addCondFn (s : CDM) (u r d : Name) (fn : CondFn) : CDM :=
 def CDM.setCondParams (s : CDM) (u r d : Name) (ps : List String) : CDM :=
   { s with rmMap := s.rmMap.map fun e => (e.1, e.2.setCondParams u r d ps) }
 
-def CDM.clear (s : CDM) : CDM := { s with rmMap := [] }
+/-- `ConditionalDomainManager.clear`: the per-domain managers stay, emptied, with their registered functions -/
+def CDM.clear (s : CDM) : CDM := { s with rmMap := s.rmMap.map fun e => (e.1, e.2.condClear) }
 
 def CDM.addMatchingFunc (s : CDM) (f : MatchFn) : CDM :=
   { s with matchFn := f, rmMap := s.rmMap.map fun e => (e.1, e.2.addMatchingFunc f) }
@@ -419,7 +428,7 @@ def Mgr.getUsers (m : Mgr) (n : Name) (dom : List Name) : Mgr × Except Err (Lis
 
 def Mgr.clear : Mgr → Mgr
   | .plain s => .plain s.clear
-  | .cond s => .cond s.clear
+  | .cond s => .cond s.condClear
   | .domain s => .domain s.clear
   | .condDomain s => .condDomain s.clear
 
